@@ -6,7 +6,7 @@ PROPERTY_MODULES = {
     "C08": ["combinators", "pjax_vmap", "extra", "extra2"],
     "C14": ["seed", "pjax_vmap", "state", "extra", "extra2"],
     "C19": ["state", "extra", "extra2"],
-    "C20": ["state_space"],
+    "C20": ["state_space", "state_space2"],
     "C11": ["adev", "extra", "extra2", "adev2"],
     "C15": ["adev", "extra", "extra2", "adev2"],
     "C13": ["distributions", "pjax_vmap", "extra", "extra2", "adev2"],
